@@ -89,9 +89,28 @@ def check_scat_forward(cfg, sizes, rnd):
     He, We = -(-H // 8) * 8, -(-W // 8) * 8
     if tuple(z.shape[2:]) != (He // 4, We // 4) or z.shape[1] != (49 * C if not colour else z.shape[1]):
         return False, 'ScatLayerj2 output shape %s for input %dx%d' % (tuple(z.shape), H, W)
-    if colour:
-        return float(z[:, 3:].min()) >= 0, 'colour j2: shape/non-negativity only'
+    if colour and biort.endswith('_bp'):
+        return float(z[:, 15:].min()) >= 0 and float(z[:, 9:15].min()) >= 0, 'colour j2 band-pass: shape/non-negativity only (no reference pyramid)'
     import dtcwt
+    if colour:
+        for n in range(2):
+            xe = [_ext8(x[n, c]) for c in range(3)]
+            pyr = [_ref_pyramid(xe[c], biort, qshift, 2)[1] for c in range(3)]
+            hp1 = [np.moveaxis(p.highpasses[0], -1, 0) for p in pyr]
+            hp2 = [np.moveaxis(p.highpasses[1], -1, 0) for p in pyr]
+            s1 = np.sqrt(sum(np.abs(h) ** 2 for h in hp1) + b * b) - b      # (6, H/2, W/2)
+            s1b = np.sqrt(sum(np.abs(h) ** 2 for h in hp2) + b * b) - b
+            l3, h3 = [], []
+            for o in range(6):
+                ll3, hp3 = _ref_level1(s1[o], biort)
+                l3.append(_pool(ll3))
+                h3.append(np.sqrt(np.abs(hp3) ** 2 + b * b) - b)
+            want = np.concatenate([np.stack([_pool(p.lowpass) for p in pyr]), np.stack(l3), s1b,
+                                   np.stack([h3[o1][o2] for o2 in range(6) for o1 in range(6)])])
+            ok, det = _close(z[n].numpy(), want, 1e-8)
+            if not ok:
+                return False, 'ScatLayerj2 colour %s/%s %dx%d: %s' % (biort, qshift, H, W, det)
+        return True, 'ScatLayerj2 colour %s/%s %dx%d ok' % (biort, qshift, H, W)
     for n in range(1):
         xe = np.stack([_ext8(x[n, c]) for c in range(C)])
         S0, S1a, S1b, S2 = [], [], [], []
